@@ -29,8 +29,10 @@ RULE = ("base = one generated cdef (3..14 declarations of vlib.gen_cdef: typedef
         "line); case = one decorated text compared with its base; distinct = decorated text; "
         "non-trivial = at least one insertion")
 ASSUMPTIONS = [
-    "trivia is inserted only between tokens, never inside a token or a string literal; line "
-    "directives stand on their own lines and never inside a #define line",
+    "trivia is inserted only between tokens, never inside a token or a string literal - except a "
+    "backslash-newline (without following indentation) inside the value of a #define, which C "
+    "splices away before tokenization; line directives stand on their own lines (ending in LF or "
+    "CR LF) and never inside a #define line",
     "// comments do not end with a backslash (C would splice the next line into them)",
     "inside #define lines only spaces, tabs, comments and backslash-newline are inserted (C allows no "
     "other white space in a directive) and a #define stays the first token of its line",
@@ -147,9 +149,13 @@ class Layout(object):
         return (a.isalnum() or a == '_') and (b.isalnum() or b == '_')
 
     def render(self, ins, lines=None):
-        at = {}
+        at, split = {}, {}
         for i in ins:
-            at.setdefault((i['L'], i['j']), []).append(i)
+            if i['kind'] == 'split-value':
+                split[(i['L'], i['j'])] = i
+                at.setdefault((i['L'], i['j']), [])
+            else:
+                at.setdefault((i['L'], i['j']), []).append(i)
         out = []
         for L, toks in enumerate(self.toks):
             if lines is not None and not any((L, j) in at for j in range(len(toks) + 1)):
@@ -165,7 +171,9 @@ class Layout(object):
                         s = ' ' + s
                 out.append(s)
                 if j < len(toks):
-                    out.append(toks[j])
+                    sp = split.get((L, j))
+                    out.append(toks[j] if sp is None else
+                               toks[j][:sp['pos']] + sp['text'] + toks[j][sp['pos']:])
             out.append('\n')
         if any(i['kind'] == 'eof-no-newline' for i in ins):
             out.pop()
@@ -282,7 +290,24 @@ def exotic(rnd, lay):
     k = rnd.choice(['ws-formfeed', 'ws-vtab', 'ws-cr', 'ws-crlf', 'ws-crlf-define',
                     'block-comment-directive-line', 'line-directive-cdef-words',
                     'line-directive-special', 'line-directive-special', 'comment-in-define-head',
-                    'continuation-in-define-head'])
+                    'continuation-in-define-head', 'line-directive-crlf', 'line-directive-crlf',
+                    'continuation-inside-define-value', 'continuation-inside-define-value'])
+    if k == 'line-directive-crlf':
+        # a CRLF text file: the directive's own line ends with CR LF too
+        return ins(lay, rnd.choice(plain), k, directive(rnd).replace('\n', '\r\n'), True)
+    if k == 'continuation-inside-define-value':
+        # backslash-newline is spliced before tokenization (C11 5.1.1.2 phase 2): it may split
+        # the value token itself ('-\<nl>42'), without indentation on the continued line
+        cand = [L for L in range(len(lay.toks)) if lay.define[L] and len(lay.toks[L][3]) >= 2
+                and lay.toks[L][3] != '...']
+        if not cand:
+            return None
+        L = rnd.choice(cand)
+        pos = rnd.randrange(1, len(lay.toks[L][3]))
+        if rnd.random() < 0.5 and lay.toks[L][3][0] == '-':
+            pos = 1
+        return {'L': L, 'j': 3, 'kind': 'split-value', 'where': 'define:inside-value',
+                'text': '\\\n' * rnd.choice([1, 1, 2]), 'pos': pos, 'exotic': True}
     if k in ('ws-formfeed', 'ws-vtab', 'ws-cr', 'ws-crlf'):
         ch = {'ws-formfeed': '\f', 'ws-vtab': '\v', 'ws-cr': '\r', 'ws-crlf': '\r\n'}[k]
         return ins(lay, rnd.choice(decl), k, hws(rnd, 0, 1) + ch + hws(rnd, 0, 1), True)
